@@ -2334,6 +2334,112 @@ async def c19_interleaved_parent(w):
     return {"reproduced": got != want, "observed": {"idle_status_parents": got, "all": [(n, t, p) for n, t, p, c in sent]}, "expected": {"idle_status_parents": want}}
 
 
+# ---------------------------------------------------------------------------------------------------------
+# C15: task.wait_until on the real subsystems
+# ---------------------------------------------------------------------------------------------------------
+def _c15_held(hass):
+    from custom_components.pyscript.state import State
+    from custom_components.pyscript.event import Event
+    held = {"state": sum(len(v) for v in State.notify.values()), "event": sum(len(v) for v in Event.notify.values()),
+            "bus_listeners": sum(len(v) for k, v in hass.bus.listeners.items() if k.startswith("c15_"))}
+    return held
+
+
+async def c15_wait_until(w):
+    """task.wait_until on the real subsystem: the scenario named by w['what'] for both subsystems (or w['subsystem'])."""
+    from types import SimpleNamespace as NS
+    from custom_components.pyscript.global_ctx import GlobalContext, GlobalContextMgr
+    from custom_components.pyscript.function import Function
+    from custom_components.pyscript.event import Event
+    what = w.get("what", "cancel")
+    out = {}
+    for legacy in (False, True):
+        sub = "legacy" if legacy else "new"
+        if w.get("subsystem") not in (None, sub):
+            continue
+        if what == "timeout-with-traffic":
+            env5 = await c05_env(legacy)     # virtual clock for the loop, time.monotonic and dt_now
+            hass, table = env5.hass, env5.table
+        else:
+            hass = await boot_full(legacy=legacy)
+            table = fake_states(hass)
+        table["pyscript.c15v"] = ("0", {})
+        table["pyscript.c15bad"] = ("unavailable", {})
+        base = _c15_held(hass)
+        result = {}
+        name = f"file.c15_{sub}_{what}"
+        gctx = GlobalContext(name, global_sym_table={"__name__": name, "report": lambda k, v: result.__setitem__(k, v)}, manager=GlobalContextMgr)
+        GlobalContextMgr.set(name, gctx)
+        gctx.set_auto_start(True)
+        calls = {
+            "cancel": 'task.wait_until(state_trigger="pyscript.c15v == \'1\'", event_trigger="c15_ev")',
+            "timeout-zero": 'task.wait_until(timeout=0)',
+            "timeout-zero-with-trigger": 'task.wait_until(event_trigger="c15_ev", timeout=0)',
+            "filter-parse-error": 'task.wait_until(state_trigger="pyscript.c15v == \'1\'", event_trigger="c15_ev", mqtt_trigger=["c15/topic", "1 +"])',
+            "expression-error": 'task.wait_until(event_trigger=["c15_ev", "undefined_name_c15 > 1"])',
+            "event": 'task.wait_until(event_trigger="c15_ev", timeout=30)',
+            "initial-check-error": 'task.wait_until(state_trigger="int(pyscript.c15bad) > 25", timeout=5)',
+            "timeout-with-traffic": 'task.wait_until(event_trigger=["c15_ev", "a == 2"], timeout=2.5)',
+        }
+        src = ("@time_trigger('startup')\ndef f():\n    report('started', True)\n    try:\n        r = " + calls[what] +
+               "\n        report('ret', r)\n    except Exception as e:\n        report('exc', type(e).__name__)\n")
+        tasks_before = set(asyncio.all_tasks())
+        _, _, exc = await run_source(name, src, global_ctx=gctx)
+        await settle(40)
+        during = _c15_held(hass)
+        if what == "cancel":
+            # cancel the task that runs f (as task.cancel / task.unique / reload would)
+            for t in set(asyncio.all_tasks()) - tasks_before:
+                if not t.done() and t in Function.our_tasks and "_cycle" not in repr(t.get_coro()) and "trigger_watch" not in repr(t.get_coro()):
+                    t.cancel()
+            await settle(40)
+        elif what == "timeout-with-traffic":
+            # non-qualifying events keep arriving once per (virtual) second; the timeout counts from the call
+            vt = env5.vt
+            t0 = vt[0]
+            for _i in range(6):
+                await asyncio.sleep(1.0)
+                for cb in list(hass.bus.listeners.get("c15_ev", [])):
+                    await cb(NS(event_type="c15_ev", context=None, data={"a": 1}))
+                await settle(30)
+                if "ret" in result and "t_ret" not in result:
+                    result["t_ret"] = str(round(vt[0] - t0, 1))
+        elif what in ("expression-error", "event"):
+            for cb in list(hass.bus.listeners.get("c15_ev", [])):
+                await cb(NS(event_type="c15_ev", context=None, data={"a": 1}))
+            await settle(40)
+        else:
+            try:
+                await asyncio.wait_for(settle(200), 2)
+            except Exception:  # noqa
+                pass
+        after = _c15_held(hass)
+        gctx.stop()
+        GlobalContextMgr.delete(name)
+        await settle(20)
+        out[sub] = {"held_before": base, "held_while_waiting": during, "held_after_exit": after, "result": {k: (v if isinstance(v, (str, bool, type(None))) else repr(v)) for k, v in result.items()},
+                    "error": repr(exc) if exc else None}
+        await shutdown()
+    bad = {}
+    for sub, o in out.items():
+        leak = o["held_after_exit"] != o["held_before"]
+        wrong = False
+        if what.startswith("timeout-zero"):
+            wrong = o["result"].get("ret") != repr({"trigger_type": "timeout"})
+        if what == "event":
+            wrong = "'trigger_type': 'event'" not in str(o["result"].get("ret"))
+        if what in ("expression-error", "initial-check-error"):
+            wrong = o["result"].get("exc") is None
+        if what == "timeout-with-traffic":
+            wrong = o["result"].get("ret") != repr({"trigger_type": "timeout"}) or o["result"].get("t_ret") not in ("3.0",)
+        if leak or wrong:
+            bad[sub] = {"leak": leak, "wrong_result": wrong}
+    return {"reproduced": bool(bad), "observed": out, "expected": "subscriptions and listeners as before the call; " + {"timeout-zero": "returns {'trigger_type': 'timeout'}",
+            "timeout-zero-with-trigger": "returns {'trigger_type': 'timeout'}", "event": "returns the event dictionary", "expression-error": "the exception reaches the caller", "initial-check-error": "the exception reaches the caller",
+            "cancel": "CancelledError", "filter-parse-error": "the syntax error reaches the caller",
+            "timeout-with-traffic": "returns {'trigger_type': 'timeout'} 2.5 s after the call although non-qualifying events keep arriving"}[what], "failing": bad}
+
+
 SCENARIOS = {k: v for k, v in list(globals().items()) if asyncio.iscoroutinefunction(v) and k[0] == "c"}
 
 if __name__ == "__main__":
